@@ -5,7 +5,7 @@
 import GT.Lemmas.Sym2
 import GT.Lemmas.RepDerived
 
-namespace GT
+namespace GT.RepW
 namespace Rep
 open Matrix
 variable {n : ℕ} {R : Type} [Inhabited R] [CommRing R]
@@ -130,4 +130,4 @@ theorem sym2_value {half : R} (hh : 2 * half = 1)
     exact ⟨symH half G0, ⟨G0, hG0, rfl⟩, by rw [← symH_mul hh, g1, symH_one hh]⟩
 
 end Rep
-end GT
+end GT.RepW
